@@ -142,7 +142,10 @@ def lock_stages(q):
     inv = ['RaceFree', 'LockOK', 'NoTornReply']
     return [{'kind': 'mc', 'name': 'lock', 'module': 'MC_Lock', 'subst': sb, 'consts': c, 'invariants': inv, 'workers': 16},
             {'kind': 'mc_neg', 'name': 'lock-asbuilt', 'module': 'MC_Lock', 'subst': {'Writers': 'W2', 'Readers': 'R2'}, 'consts': dict(c, Discipline='"asBuilt"'),
-             'invariants': ['RaceFree'], 'expect': 'RaceFree'}]
+             'invariants': ['RaceFree'], 'expect': 'RaceFree'},
+            {'kind': 'ind', 'name': 'lock-inductive', 'module': 'LockInd', 'safety': 'Safety', 'unbounded_in': 'number of operations per goroutine, generations of the route',
+             'consts': {'Writers': '{"w1", "w2"}', 'Readers': '{"r1", "r2", "r3"}', 'Discipline': '"intended"', 'NOps': 2},
+             'neg_consts': {'Writers': '{"w1", "w2"}', 'Readers': '{"r1", "r2", "r3"}', 'Discipline': '"asBuilt"', 'NOps': 2}}]
 
 
 def globals_stages(q):
@@ -150,7 +153,10 @@ def globals_stages(q):
     sb = {'Procs': 'P3', 'Ctxs': 'C3'}
     return [{'kind': 'mc', 'name': 'globals', 'module': 'MC_Globals', 'subst': sb, 'consts': c, 'invariants': ['RaceFree', 'PoolOK'], 'workers': 16},
             {'kind': 'mc_neg', 'name': 'globals-asbuilt', 'module': 'MC_Globals', 'subst': sb, 'consts': dict(c, Discipline='"asBuilt"', NOps=2),
-             'invariants': ['RaceFree'], 'expect': 'RaceFree'}]
+             'invariants': ['RaceFree'], 'expect': 'RaceFree'},
+            {'kind': 'ind', 'name': 'globals-inductive', 'module': 'GlobalsInd', 'safety': 'Safety', 'unbounded_in': 'number of registrations / requests per goroutine',
+             'consts': {'Procs': '{"p1", "p2", "p3"}', 'Ctxs': '{"c1", "c2", "c3"}', 'Discipline': '"intended"', 'NOps': 2},
+             'neg_consts': {'Procs': '{"p1", "p2", "p3"}', 'Ctxs': '{"c1", "c2", "c3"}', 'Discipline': '"asBuilt"', 'NOps': 2}}]
 
 
 def conc_stage(mode, k, num, iters, stress, seedoff=0):
@@ -223,8 +229,8 @@ def mc_tree(depth):
 
 def p_c02(q):
     if q:
-        return [mc_router('T'), mc_tree(4), gen_bfs('O', 4, module='MC_RouterO', consts={'L': 4}, sample=0.08), gen_bfs('O', 3, name='bfsO3', module='MC_RouterO', consts={'L': 4}, dump=True), gogen('addonly', 80)]
-    return [mc_router('T'), mc_tree(6), REPOTESTS, gen_bfs('O', 4, module='MC_RouterO', consts={'L': 5}, dump=True), gen_bfs('O', 2, name='bfsO2L6', module='MC_RouterO', consts={'L': 6}),
+        return [mc_router('T'), mc_tree(4), gen_bfs('O', 4, module='MC_RouterO', consts={'L': 4}, sample=0.02), gen_bfs('O', 3, name='bfsO3', module='MC_RouterO', consts={'L': 4}, dump=True), gogen('addonly', 80)]
+    return [mc_router('T'), mc_tree(6), REPOTESTS, gen_bfs('O', 4, module='MC_RouterO', consts={'L': 5}, dump=True, sample=0.35), gen_bfs('O', 3, name='bfsO3', module='MC_RouterO', consts={'L': 5}, dump=True), gen_bfs('O', 2, name='bfsO2L6', module='MC_RouterO', consts={'L': 6}),
             gogen('addonly', 2000)]
 
 
@@ -298,7 +304,7 @@ def p_dump(q):
 
 
 ROUTER_PLANS = {
-    'TD': p_dump,
+    'TD': p_dump, 'TL': (lambda q: lock_stages(q) + globals_stages(q)),
     'C18': p_c18,
     'C19': p_c19, 'C09': p_c09,
     'C10': p_c10,
